@@ -35,7 +35,7 @@ theorem wireDims_eq_rep2 (fields : List FieldSpec) (h : ∀ f ∈ fields, f.loca
   exact h f hf
 
 section Loop
-variable {α : Type} [CommRing α] [DecidableEq α]
+variable {α : Type} [CommSemiring α] [DecidableEq α]
 
 /-- what the theorems need to know about a gate of the circuit (all supplied by C06 for the gate classes it covers, and
 by the harness's numbering of data references) -/
